@@ -90,6 +90,8 @@ _OPENERS = ['(', '[', '{', 'f(', 'x[', '(lambda: ', '[x for x in ', '{x: ', 'f"{
             'await ', 'lambda: ', '*', '(yield ', 'x if ', '(x, ', 'x = ', 'a.b(', '@', 'x or ']
 _CLOSERS = {'(': ')', '[': ']', '{': '}', 'f(': ')', 'x[': ']', '(lambda: ': ')', '[x for x in ': ']',
             '{x: ': '}', 'f"{': '}"', "f'''{": "}'''", '(yield ': ')', '(x, ': ')', 'a.b(': ')'}
+_OPENER_WEIGHT = {'(lambda: ': 2, '[x for x in ': 2, 'f"{': 2, "f'''{": 2, '(yield ': 2, 'a.b(': 2, 'f(': 2, 'x[': 2,
+                  'lambda: ': 1, 'await ': 1, 'x if ': 1}
 _BLOCKS = ['if x:', 'def f():', 'class A:', 'while x:', 'for x in y:', 'try:', 'with a:', 'else:', 'async def f():',
            'elif y:', 'except:', 'finally:', 'if x', 'def f(', 'x = (', 'lambda:', 'match x:', 'case y:']
 
@@ -99,7 +101,7 @@ def nested(draw, max_depth=100):
     """Bracket/prefix-operator nesting and indentation ladders with total depth <= max_depth."""
     total = draw(st.integers(0, max_depth))
     ladder = draw(st.integers(0, total))
-    brack = total - ladder
+    budget = total - ladder
     unit = draw(st.sampled_from([' ', '  ', '    ', '\t']))
     newline = draw(st.sampled_from(['\n', '\n', '\r\n', '\r']))
     out = []
@@ -111,8 +113,13 @@ def nested(draw, max_depth=100):
     ind = unit * ladder
     opens = []
     op1 = draw(st.sampled_from(_OPENERS))
-    for d in range(brack):
-        opens.append(op1 if mono else draw(st.sampled_from(_OPENERS)))
+    while budget > 0:
+        o = op1 if mono else draw(st.sampled_from(_OPENERS))
+        w = _OPENER_WEIGHT.get(o, 1)
+        if w > budget:
+            break
+        budget -= w
+        opens.append(o)
     core = draw(st.sampled_from(['x', '', '1', 'pass', '$', 'x y', '\n', ':', 'yield', '"', 'f"{']))
     close_mode = draw(st.sampled_from(['all', 'none', 'some', 'wrong']))
     closers = []
